@@ -7,8 +7,8 @@
    not yet covered by a theorem are decided by the implementation <-> specification <->
    hardware differential run only (listed as unproved_forms in the evidence). *)
 From Coq Require Import ZArith Bool List.
-From AxV Require Import Bits Outcome Codes Iced State Rt Mem Trace Exec ExecP FrameTac FrameP ByteStore RegFile RegsP ISA CodeSem IsaP OperandP RmP MovP StoreP Alu32P MovxP DivP Div32P Div16P Examples.
-From AxG Require Import Flags Regs Operand Helpers Dispatch Frame I_div I_idiv I_mov.
+From AxV Require Import Bits Outcome Codes Iced State Rt Mem Trace Exec ExecP FrameTac FrameP ByteStore RegFile RegsP ISA CodeSem IsaP OperandP RmP MovP StoreP Alu32P MovxP DivP Div32P Div16P XmmP Examples.
+From AxG Require Import Flags Regs Operand Helpers Dispatch Frame I_div I_idiv I_mov I_xorps I_movups.
 Local Open Scope Z_scope.
 
 Print Assumptions cond_matches_sdm.
@@ -167,6 +167,23 @@ Example C06_example :
             end.
 Proof. split; [exact div_hyps|exact div_runs]. Qed.
 
+(* the alignment-checking vector form: XORPS with a memory operand fails exactly when the address is not a
+   multiple of 16 (the specification's #GP) or the 16 bytes cannot be read; MOVUPS has no such requirement
+   (statement shared with C01_xmm) *)
+Theorem C06_vector_alignment : forall c i s, wf_regs s -> Inv (mem s) -> i_op_count i = 2 ->
+  (i_op_kind i 0 = OK_Register -> is_xmm (i_op_register i 0) = true -> xmmm_shape i 1 ->
+     i_code i = C_Xorps_xmm_xmmm128 -> xmm_refines i s SXorps (instr_xorps_xmm_xmmm128 c i s)) /\
+  (i_op_kind i 0 = OK_Register -> is_xmm (i_op_register i 0) = true -> xmmm_shape i 1 ->
+     i_code i = C_Movups_xmm_xmmm128 -> xmm_refines i s SMovups (instr_movups_xmm_xmmm128 c i s)) /\
+  (xmmm_shape i 0 -> i_op_kind i 1 = OK_Register -> is_xmm (i_op_register i 1) = true ->
+     i_code i = C_Movups_xmmm128_xmm -> xmm_refines i s SMovups (instr_movups_xmmm128_xmm c i s)).
+Proof.
+  intros c i s Hwf HI Hn. repeat split.
+  - exact (xorps_refines c i s Hwf HI Hn).
+  - exact (movups_load_refines c i s Hwf HI Hn).
+  - exact (movups_store_refines c i s Hwf HI Hn).
+Qed.
+
 Print Assumptions C06_rm64_source.
 Print Assumptions C06_div_rm64.
 Print Assumptions C06_idiv_rm64_partial.
@@ -179,3 +196,4 @@ Print Assumptions C06_div_rm16.
 Print Assumptions C06_div_rm8.
 Print Assumptions C06_idiv_rm16.
 Print Assumptions C06_idiv_rm8.
+Print Assumptions C06_vector_alignment.
